@@ -498,3 +498,82 @@ pub fn suite_seg_domains(cfg: &Cfg, rep: &mut Report) {
         ("per_domain", J::s("point insert at lo, hi, both sides of each of the 31 bucket edges (every coordinate when len <= 96): stored place must be 31 + ((x-lo) >> s); point queries; whole-domain query")),
     ]));
 }
+
+// ---------------------------------------------------------------------------------------------
+// scale: tens of thousands of copies in one place list, mass expiry with survivors
+
+pub fn seg_bulk_case(n: usize, pattern: usize, mon: &SMon, rep: &mut Report, hist: u64) -> Result<(), (Fail, Vec<SOp>, String)> {
+    let mut ex = SegExec::<i32>::new(0, 31).expect("32-point domain");
+    let ctor = ex.ctor();
+    let quiet = SMon::default();
+    let (a, b): (i64, i64) = match pattern {
+        0 => (0, 31), // the root place
+        1 => (5, 5),  // one leaf place
+        2 => (8, 15), // one inner place
+        _ => (3, 28), // eight places
+    };
+    let mut ops: Vec<SOp> = Vec::new();
+    let mut run = |ex: &mut SegExec<i32>, op: SOp, m: &SMon, rep: &mut Report, ops: &mut Vec<SOp>| -> Result<(), (Fail, Vec<SOp>, String)> {
+        // the bulk prefix is summarised in the witness by one `#bulk` line, not 70,000 lines
+        if !(matches!(op, SOp::Ins { exp: 5, .. })) {
+            ops.push(op);
+        }
+        ctx::set(hist, ops.len() as u64);
+        ex.step(&op, m, rep).map(|_| ()).map_err(|f| (f, ops.clone(), ctor.clone()))
+    };
+    // survivors first, in the middle and last, so that swap_remove moves them around
+    run(&mut ex, SOp::Ins { lo: a, hi: b, exp: 1000 }, &quiet, rep, &mut ops)?;
+    for i in 0..n {
+        run(&mut ex, SOp::Ins { lo: a, hi: b, exp: 5 }, &quiet, rep, &mut ops)?;
+        if i == n / 2 {
+            run(&mut ex, SOp::Ins { lo: a, hi: b, exp: 1000 }, &quiet, rep, &mut ops)?;
+            run(&mut ex, SOp::Ins { lo: 0, hi: 31, exp: 1000 }, &quiet, rep, &mut ops)?;
+        }
+    }
+    run(&mut ex, SOp::Ins { lo: a, hi: b, exp: 1000 }, &quiet, rep, &mut ops)?;
+    rep.counters.max("max_copies_in_one_place_list", n as u64);
+    // mass expiry with survivors, then every kind of later query must still find them
+    run(&mut ex, SOp::Q { lo: 0, hi: 31, t: 10, take: -1 }, mon, rep, &mut ops)?;
+    for x in 0..32 {
+        run(&mut ex, SOp::Q { lo: x, hi: x, t: 10, take: -1 }, mon, rep, &mut ops)?;
+    }
+    run(&mut ex, SOp::Q { lo: a, hi: b, t: 11, take: -2 }, mon, rep, &mut ops)?;
+    run(&mut ex, SOp::Ins { lo: a, hi: b, exp: 50 }, mon, rep, &mut ops)?;
+    run(&mut ex, SOp::Q { lo: 0, hi: 31, t: 12, take: -5 }, mon, rep, &mut ops)?;
+    run(&mut ex, SOp::Q { lo: a, hi: a, t: 12, take: 1 }, mon, rep, &mut ops)?;
+    run(&mut ex, SOp::Q { lo: b, hi: b, t: 60, take: -1 }, mon, rep, &mut ops)?;
+    run(&mut ex, SOp::Q { lo: 0, hi: 31, t: 60, take: -1 }, mon, rep, &mut ops)?;
+    Ok(())
+}
+
+pub fn suite_seg_bulk(cfg: &Cfg, rep: &mut Report) {
+    let mon = SMon::from_list(cfg.str_or("mon", "all"));
+    let max_n = cfg.num("max_n", 140_000) as usize;
+    let sizes: Vec<usize> = [300usize, 5_000, 70_000, 140_000, 300_000].into_iter().filter(|&x| x <= max_n).collect();
+    let mut idx = 0u64;
+    for &n in &sizes {
+        for pattern in 0..4 {
+            idx += 1;
+            if (idx - 1) % cfg.nshards != cfg.shard {
+                continue;
+            }
+            rep.histories += 1;
+            rep.case(mix(n as u64, pattern as u64));
+            if let Err((f, mut ops, ctor)) = seg_bulk_case(n, pattern, &mon, rep, idx) {
+                ops.insert(1, SOp::Clear); // placeholder so that the witness is not mistaken for a complete history
+                let mut v = viol(&f, ctor, &ops);
+                v.ops = vec![format!("#seg-bulk n={} pattern={}", n, pattern)];
+                v.family = "case".into();
+                if f.sig.starts_with("HARNESS") {
+                    rep.note(format!("harness contract breach: {} {}", f.sig, f.msg));
+                } else {
+                    rep.violation(v);
+                }
+            }
+        }
+    }
+    rep.sample(J::obj(vec![
+        ("sizes", J::Arr(sizes.iter().map(|x| J::UInt(*x as u64)).collect())),
+        ("per_case", J::s("tree over [0,31]: 4 values expiring at 1000 and n values expiring at 5 over the same range (root / leaf / inner place / eight places), whole-domain query at t=10 (mass expiry with survivors), then 32 point queries, count(), an insert, collect(), a partial query and queries at t=60")),
+    ]));
+}
